@@ -67,11 +67,16 @@ Example C05_ex2 : write64 (-9223372036854775808) = [128;128;128;128;128;128;128;
 Proof. vm_compute. reflexivity. Qed.
 
 (* ---- tie to the source: Gen/Funcs.v is TRANSLATED from the Go code by tools/gotrans on every run *)
-From GoMC Require Gen.Funcs Proofs.C05_tie.
+From GoMC Require Base.GoInt Gen.Funcs Proofs.C05_tie.
 Theorem C05_len32_translated : forall v : Z, Funcs.packet_VarInt_Len v = Z.of_N (len32 v).
 Proof. exact C05_tie.tie_VarInt_Len. Qed.
 Theorem C05_len64_translated : forall v : Z, Funcs.packet_VarLong_Len v = Z.of_N (len64 v).
 Proof. exact C05_tie.tie_VarLong_Len. Qed.
+Theorem C05_write32_translated : forall v : Z,
+  let '(n, ws) := Funcs.packet_VarInt_WriteToBytes v in
+  n = Z.of_N (lenN (write32 v)) /\
+  firstn (Z.to_nat n) (GoInt.apply_writes ws (repeat 0%Z 5)) = map Z.of_N (write32 v).
+Proof. exact C05_tie.tie_VarInt_WriteToBytes. Qed.
 
 Print Assumptions C05_leb_value.
 Print Assumptions C05_leb_canonical.
@@ -91,3 +96,4 @@ Print Assumptions C05_robust32.
 Print Assumptions C05_robust64.
 Print Assumptions C05_len32_translated.
 Print Assumptions C05_len64_translated.
+Print Assumptions C05_write32_translated.
